@@ -27,6 +27,7 @@ def job(name, enforce, replace=(), props=('C06', 'C07'), **kw):
 
 UNIT = {
     'name': 'cnt',
+    'solver': [],   # default MiniSat2 is the faster back end for these array-heavy jobs
     'classes': {
         'array_watcher': {'opaque': True},
         'counter_array': {'file': H},
